@@ -454,6 +454,14 @@ func (r *EngineRunner) Exec(f []string) (res string) {
 			r.dirs[r.cur] = filepath.Join(r.Root, r.cur)
 		}
 		return ""
+	case "rmdir": // E rmdir: (database closed) the current data directory is deleted by its owner; a merge directory beside it stays
+		if r.db != nil {
+			return "skip"
+		}
+		_ = os.RemoveAll(r.dir())
+		r.ref.m = map[string][]byte{}
+		r.ref.maps[r.cur] = r.ref.m
+		return ""
 	case "pathstyle":
 		r.pathStyle = atoi(f[2])
 		return ""
@@ -935,6 +943,62 @@ func (r *EngineRunner) Exec(f []string) (res string) {
 			return "err " + firstErr + r.takeEvents(false)
 		}
 		return "ok" + r.takeEvents(false)
+	case "bgetrace": // E bgetrace <key> <n> <len>: one goroutine Puts the key n times through the open batch, the values alternating
+		// between <len> bytes 'A' and <len> bytes 'B'; a second goroutine reads the key through the batch all the while.  Every
+		// value read is one of the two, whole (or what the key held before).  Sequentially: the n Puts in order.
+		{
+			k, _ := ParseTok(f[2])
+			n, ln := atoi(f[3]), atoi(f[4])
+			pat := [2][]byte{bytes.Repeat([]byte{'A'}, ln), bytes.Repeat([]byte{'B'}, ln)}
+			before, berr := r.batch.Get(k)
+			var wg sync.WaitGroup
+			done := make(chan struct{})
+			errs := make([]error, n)
+			bad := ""
+			wg.Add(2)
+			go func() {
+				defer wg.Done()
+				defer close(done)
+				for i := 0; i < n; i++ {
+					errs[i] = r.batch.Put(append([]byte(nil), k...), append([]byte(nil), pat[i%2]...))
+				}
+			}()
+			go func() {
+				defer wg.Done()
+				for {
+					select {
+					case <-done:
+						return
+					default:
+					}
+					v, err := r.batch.Get(k)
+					if err != nil {
+						if berr == nil && bad == "" {
+							bad = fmt.Sprintf("Batch.Get failed (%v) although the key was readable before", err)
+						}
+						continue
+					}
+					if !bytes.Equal(v, pat[0]) && !bytes.Equal(v, pat[1]) && !(berr == nil && bytes.Equal(v, before)) && bad == "" {
+						bad = fmt.Sprintf("Batch.Get returned %d bytes that are none of the values ever put (%s)", len(v), Obs(v))
+					}
+				}
+			}()
+			wg.Wait()
+			if bad != "" {
+				r.fail("C05", "a Batch.Get racing with Batch.Put of the same key through one batch: %s", bad)
+			}
+			firstErr := ""
+			for i := 0; i < n; i++ {
+				r.ref.bput(r, k, pat[i%2], errs[i])
+				if errs[i] != nil && firstErr == "" {
+					firstErr = EngErr(errs[i])
+				}
+			}
+			if firstErr != "" {
+				return "err " + firstErr + r.takeEvents(false)
+			}
+			return "ok" + r.takeEvents(false)
+		}
 	case "bdel":
 		k, _ := ParseTok(f[2])
 		err := r.batch.Delete(r.hk(k))
@@ -1704,8 +1768,27 @@ func RunEngineScript(lines []string, w *bufio.Writer, verbose bool) error {
 		}
 		r.opStart = r.shadow.count()
 		r.curWrites = nil
+		// no operation of a scenario takes minutes: one that does not return is a deadlock or a livelock inside the engine
+		// (the operations with clients of their own have finer watchdogs; this one catches the rest).  The finding is
+		// written, the process ends with the code of a stuck scenario.
+		opDone := make(chan struct{})
+		go func(line, scen string) {
+			limit := 240 * time.Second
+			if os.Getenv("VERIF_TIER") == "thorough" {
+				limit = 900 * time.Second
+			}
+			select {
+			case <-opDone:
+			case <-time.After(limit):
+				fmt.Fprintf(w, "%s => err stuck\n", line)
+				fmt.Fprintf(w, "X C09 scenario=%s the operation '%s' did not return within %v: clients are blocked inside the engine (deadlock)\n", scen, line, limit)
+				_ = w.Flush()
+				os.Exit(7)
+			}
+		}(ln, r.scen)
 		// the events of a hook-free accessor must not leak into the next operation
 		res := r.Exec(f)
+		close(opDone)
 		if f[1] == "close" || f[1] == "backup" {
 			r.skipRanges = append(r.skipRanges, [2]int{r.opStart, r.shadow.count()})
 		}
